@@ -314,10 +314,11 @@ func (s *sequenceAllocator) nextSequenceGreaterThan(ctx context.Context, existin
 	s.last = allocatedToSeq - numberToAllocate + 1
 	sequence = s.last
 	s.dbStats.LastSequenceAssignedValue.Set(sequence)
+	// lastSequenceReserveTime is read by _reserveSequenceBatch under the mutex
+	s.lastSequenceReserveTime = time.Now()
 	s.mutex.Unlock()
 
 	// Perform standard batch handling and stats updates
-	s.lastSequenceReserveTime = time.Now()
 	s.reserveNotify <- struct{}{}
 	s.dbStats.SequenceAssignedCount.Add(1)
 
